@@ -247,6 +247,7 @@ func c24E2E(a []string) string { //nolint:cyclop
 
 func c24Run(p *c24Prog) string {
 	s := NewSched()
+	s.Families = []string{"flush.", "gather."}
 	// no segment here ever waits on anything but the short critical sections of the gatherer, so a
 	// thread that does not reach its next yield is late (machine load), not blocked: wait generously
 	s.BlockTimeout = 3 * time.Second
